@@ -385,7 +385,13 @@ impl Sys {
                     let n = &self.w.nodes[i];
                     let margin = self.w.request_timeout * 2;
                     let keys_held = match inj.tag.gen {
-                        Some(g) => g + 1 == n.gen_created.len() && n.gen_at_victim.get(g).copied().unwrap_or(false) && (g == 0 || n.gen_created[g] > n.gen_created[g - 1] + margin),
+                        Some(g) => {
+                            // ... and the node under test has not challenged that peer since (a
+                            // WHOAREYOU means it dropped or never had the session)
+                            let since = n.gen_created.get(g).copied().unwrap_or(Duration::ZERO);
+                            let challenged_since = self.w.trace.iter().rev().take_while(|(t, _)| *t + Duration::from_millis(600) >= since).any(|(t, e)| *t >= since && matches!(e, WEv::Sent { node: Some(k), kind: "whoareyou", .. } if *k == i));
+                            !challenged_since && g + 1 == n.gen_created.len() && n.gen_at_victim.get(g).copied().unwrap_or(false) && (g == 0 || n.gen_created[g] > n.gen_created[g - 1] + margin)
+                        }
                         None => false,
                     };
                     self.reqs.push(ReqCase {
